@@ -10,7 +10,7 @@ RULE = ('responses over every modelled status code x 0..40 headers (repeated nam
         'server responses framed by Content-Length or chunked coding (all compositions of bodies <= 6 bytes, random above) '
         'under read plans (all-at-once, byte-wise, split points, random); non-trivial = has a body and >= 1 header')
 ASSUMPTIONS = ['conforming servers send no chunk extensions or trailers (outside the property quantifier)',
-               'client redirect clause is exercised over loopback in c07 part "client" (port 80 needed for absolute Location)']
+               ]
 
 TOKEN = re.compile(rb"^[!#$%&'*+\-.^_`|~0-9A-Za-z]+$")
 
@@ -70,6 +70,14 @@ def expected_setcookie(c):
 
 
 def run(ctx):
+    from props import c07_client
+    global RULE
+    if 'client:' not in RULE:
+        RULE = RULE + ' | client: ' + c07_client.RULE
+        ASSUMPTIONS.extend(a for a in c07_client.ASSUMPTIONS if a not in ASSUMPTIONS)
+    c07_client.run(ctx)
+    if ctx.replay and ctx.replay['case'].get('line', '').startswith('redirect '):
+        return
     rng = ctx.rng
     thorough = ctx.tier == 'thorough'
     lines, meta = [], []
